@@ -45,7 +45,7 @@ _c("C07", "proggen+inproc",
 _c("C08", "proggen",
    "generated programs over logged conversion helper types: value/address/write-through comparisons, round trips, conversion-count logs; impl presence and absence decided at run time by an inherent-const-vs-blanket-trait probe against a model of from.md/into.md/constructor.md",
    "Generated-input search: 2.3k (quick) / 28k (thorough) structs and enums deriving From/Into/Constructor over all documented attribute placements; components must land in declaration order, ref/ref_mut forms must alias the very fields, round trips must be the identity, exactly one logged From::from per converted field, and the set of impls must equal the documented one (10-30 probed (T,U) pairs per case incl. near misses); wrong-arity type lists and derives on unsupported kinds must be rejected. Exploration only.",
-   "no generic parameters on the derived types; negative cases accept any rustc rejection")
+   "type parameters on the derived types only in the const-generic form; negative cases must be rejected by the derive itself (confirmed in-process) and by rustc")
 _c("C10", "proggen",
    "symbolic differential testing: field types form a free term algebra recording (operator, lhs, rhs), so one evaluation per generated case decides all operand values; expected terms are built by hand inside the program",
    "Generated-input search: ~2k (quick) / ~16k (thorough) structs and enums deriving each of the 24 operator derives (scalar and forward Mul family, assign forms, Not/Neg, Sum/Product with derived or hand-written companions); field i must equal op(L i, R i) / op(L i, K) / un(L i); a op= b equals a op b; sums equal the left fold from the field-wise Zero/One; every ordered pair of enum variants gives Ok / Mismatch / Unit with the documented messages; enum forms documented as unsupported must be rejected. Exploration only.",
@@ -57,11 +57,11 @@ _c("C11", "proggen+inproc",
 _c("C13", "proggen",
    "model-based testing of generated FromStr enums and newtypes against a reference implementation of the documented matching rule / the inner type's own FromStr over string sets enumerated inside the program (bounded exhaustive, case patterns, one-edit neighbours, seeded random)",
    "Generated-input search: ~1000 enums (about 14k strings each: all strings up to a length bound over each name's letters in both cases plus separators, every case pattern, one-edit neighbours, prefixes/suffixes/concatenations, random multi-byte strings) and ~450 newtypes over 14 inner types incl. generic forms and a custom error per quick run; results, error types and texts must agree with the reference, own names must round-trip. Exploration; exhaustive only inside the stated per-name length bounds.",
-   "ASCII variant names; characters whose lowercase is an ASCII letter excluded so that 'ignoring case' is unambiguous")
+   "variant names are ASCII or use the letters É Ä Ø Ü (one-to-one case pairs); characters whose lowercase is an ASCII letter excluded from the strings so that 'ignoring case' is unambiguous")
 _c("C14", "proggen+inproc",
    "generated structs with equal-typed neighbouring fields whose field types answer their own AsRef/Deref/Index/IntoIterator from a second allocation, so pointer/size identity separates the field's own storage from the field's impl result; write-through and three-form iteration comparisons",
    "Generated-input search: ~890 (quick) / ~10k (thorough) structs per seed over all seven delegating derives, selection by marker / ignore-the-others / forward / type lists (incl. the field's own type through an alias or another path), owned/ref/ref_mut iteration: addresses, sizes, element order and write visibility must match the selected field (or exactly what the field's own impl returns when forwarding). Exploration only.",
-   "selection styles limited to the documented ones; only `T` as generic parameter")
+   "selection styles limited to the documented ones; absence of the owned IntoIterator form is probed only in the arrangement the repo's own test defines")
 _c("C15", "proggen",
    "metamorphic testing: every generated item (C01 generator, all 50 derives) and 22 behaviour templates are compiled twice, in a friendly module and in a #[no_implicit_prelude] module with one of 7 shadow sets (types, fns/consts, traits, compile_error-macros, silently capturing macros, glob-imported variants); user tokens are rewritten to absolute paths, so only expansion tokens can depend on the scope",
    "Generated-input search: ~1.2k (quick) / ~40k (thorough) friendly/hostile pairs; the hostile copy must compile whenever the friendly one does, and the drivers' observation strings (formatting results, panic messages, error texts, sources, parses, conversions) must be identical in both scopes; every behaviour template runs under every shadow set in every quick run. Exploration only.",
@@ -107,6 +107,15 @@ def main():
         pid = p["id"]
         if pid in CHECKS:
             eng, tech, text, note, ref = CHECKS[pid]
+            # the check's own rule text and the sizes of its latest quick run keep the claim current
+            try:
+                ev = json.load(open(os.path.join(HERE, "evidence", pid + ".json")))
+                cov = ev.get("coverage", {})
+                if ev.get("tier") == "quick" and cov.get("rule"):
+                    text = (text + " As built (rule text of the check, latest quick run: %s evaluations, %s distinct non-trivial): %s"
+                            % (cov.get("evaluations", "?"), cov.get("distinct_nontrivial", "?"), cov["rule"]))
+            except Exception:
+                pass
             checks.append({
                 "property_id": pid,
                 "quick_cmd": f"./check {pid} --tier quick",
